@@ -16,7 +16,7 @@ pub fn props() -> Vec<Prop> {
             id: "C14",
             run: c14,
             tools: None,
-            rule: "every string over {/,.,a,b} up to length 9 (quick) / 11 (thorough) is enumerated and sys::clean + PathExt::clean compared with a byte-level port of Go's path.Clean, plus idempotence/absoluteness/non-empty checks; seeded random strings over a wide alphabet (multi-byte, spaces, backslash) on top. distinct_nontrivial = distinct (set of clean rules the input triggers, output component count, output kind) classes among inputs that clean() changed, counted with a hash set.",
+            rule: "every string over {/,.,a,b} up to length 10 (quick) / 13 (thorough) is enumerated and sys::clean + PathExt::clean compared with a byte-level port of Go's path.Clean, plus idempotence/absoluteness/non-empty checks; seeded random strings over a wide alphabet (multi-byte, spaces, backslash) on top. distinct_nontrivial = distinct (set of clean rules the input triggers, output component count, output kind) classes among inputs that clean() changed, counted with a hash set.",
             assumptions: &["reference = port of the published Go algorithm, written without std::path", "inputs are UTF-8"],
             shards_quick: 8,
             shards_thorough: 16,
@@ -29,7 +29,7 @@ pub fn props() -> Vec<Prop> {
             id: "C15",
             run: c15,
             tools: None,
-            rule: "each law of the statement is an executable predicate over plain strings / std::path::Component sequences; one-argument helpers on every string up to length 5 (quick) / 6 (thorough) over {/,.,:,a,e-acute,euro}; two-argument helpers on every ordered pair of strings up to length 3 / 4 plus the constructed pairs (s+p, p+s) the inverse laws need; scheme-prefixed strings for trim_protocol; seeded random longer strings with 4-byte characters. distinct_nontrivial = distinct (law, input class, outcome class) triples where the helper did something other than return its input.",
+            rule: "each law of the statement is an executable predicate over plain strings / std::path::Component sequences; one-argument helpers on every string up to length 5 (quick) / 8 (thorough) over {/,.,:,a,e-acute,euro}; two-argument helpers on every ordered pair of strings up to length 3 / 5 plus the constructed pairs (s+p, p+s) the inverse laws need; scheme-prefixed strings for trim_protocol; seeded random longer strings with 4-byte characters. distinct_nontrivial = distinct (law, input class, outcome class) triples where the helper did something other than return its input.",
             assumptions: &["laws on dir/base, first/last are phrased on std::path::Component sequences", "inputs are UTF-8"],
             shards_quick: 8,
             shards_thorough: 16,
@@ -55,7 +55,7 @@ pub fn props() -> Vec<Prop> {
             id: "C19",
             run: c19,
             tools: None,
-            rule: "drop/slice/first/first_result/last_result/single/some/consume on every Vec<i32> of length 0..=8 with every index (pair) in -10..=10 (exhaustive) plus extreme indices, on Vec::into_iter, slice::iter and Path::components; StringExt and to_bool on every string up to length 4 (quick) / 5 (thorough) over a casing/multi-byte alphabet; Option::has; take_while_p with every threshold; defer on generated control-flow shapes (depth <= 3, <= 3 guards per frame, exit by fall-through / return / panic at every position) executed as real stack frames. distinct_nontrivial = distinct (helper, input class, outcome class) triples + distinct defer shapes.",
+            rule: "drop/slice/first/first_result/last_result/single/some/consume on every Vec<i32> of length 0..=8 with every index (pair) in -10..=10 (exhaustive) plus extreme indices, on Vec::into_iter, slice::iter and Path::components; StringExt and to_bool on every string up to length 4 (quick) / 6 (thorough) over a casing/multi-byte alphabet; Option::has; take_while_p with every threshold; defer on generated control-flow shapes (depth <= 3, <= 3 guards per frame, exit by fall-through / return / panic at every position) executed as real stack frames. distinct_nontrivial = distinct (helper, input class, outcome class) triples + distinct defer shapes.",
             assumptions: &["slice is only specified for left >= -len (statement)", "defer order inside one frame relies on Rust's reverse drop order of locals"],
             shards_quick: 4,
             shards_thorough: 8,
@@ -171,7 +171,7 @@ fn c14_one(s: &str, rep: &mut Report) {
 }
 
 fn c14(ctx: &Ctx, rep: &mut Report) {
-    let max = if ctx.thorough { 11 } else { 9 };
+    let max = if ctx.thorough { 13 } else { 10 };
     for_all_strings(&["/", ".", "a", "b"], max, |i, s| {
         if ctx.mine(i) {
             c14_one(s, rep);
@@ -181,7 +181,7 @@ fn c14(ctx: &Ctx, rep: &mut Report) {
     // random over a wide alphabet
     let toks = ["/", "/", ".", "..", "a", "b", "é", "€", "😀", " ", "\\", "b.c", "...", ".a", "a.", "//", "/./", "/../"];
     let mut rng = ctx.rng("c14-random");
-    let n = if ctx.thorough { 1_000_000 } else { 100_000 } / ctx.shards;
+    let n = if ctx.thorough { 8_000_000 } else { 200_000 } / ctx.shards;
     let mut s = String::new();
     for _ in 0..n {
         s.clear();
@@ -288,7 +288,7 @@ fn c16(ctx: &Ctx, rep: &mut Report) {
     rep.count("exhaustive_pairs", i / ctx.shards as u64);
     let names6 = ["a", "b", "c", "dd", "é", "x y"];
     let mut rng = ctx.rng("c16");
-    let n = if ctx.thorough { 10_000_000 } else { 100_000 } / ctx.shards;
+    let n = if ctx.thorough { 100_000_000 } else { 200_000 } / ctx.shards;
     for _ in 0..n {
         let lp = rng.below(13);
         let lb = rng.below(13);
@@ -598,13 +598,13 @@ fn c15_pair(a: &str, b: &str, rep: &mut Report) {
 
 fn c15(ctx: &Ctx, rep: &mut Report) {
     let alpha = ["/", ".", ":", "a", "é", "€"];
-    let max1 = if ctx.thorough { 6 } else { 5 };
+    let max1 = if ctx.thorough { 8 } else { 5 };
     for_all_strings(&alpha, max1, |i, s| {
         if ctx.mine(i) {
             c15_single(s, rep);
         }
     });
-    let max2 = if ctx.thorough { 4 } else { 3 };
+    let max2 = if ctx.thorough { 5 } else { 3 };
     let mut all: Vec<String> = vec![];
     for_all_strings(&alpha, max2, |_, s| all.push(s.to_string()));
     let mut i = 0u64;
@@ -621,7 +621,7 @@ fn c15(ctx: &Ctx, rep: &mut Report) {
     // random longer with 4-byte characters
     let toks = ["/", ".", ":", "a", "b", "é", "€", "😀", " ", "..", "//", ".tar", "x.y", "\\"];
     let mut rng = ctx.rng("c15");
-    let n = if ctx.thorough { 400_000 } else { 40_000 } / ctx.shards;
+    let n = if ctx.thorough { 4_000_000 } else { 40_000 } / ctx.shards;
     for _ in 0..n {
         let mut a = String::new();
         let mut b = String::new();
@@ -1150,7 +1150,7 @@ fn c19(ctx: &Ctx, rep: &mut Report) {
     }
     // strings
     let alpha = ["f", "a", "l", "s", "e", "F", "A", "L", "S", "E", "0", "1", "é", "€", " "];
-    let max = if ctx.thorough { 5 } else { 4 };
+    let max = if ctx.thorough { 6 } else { 4 };
     for_all_strings(&alpha, max, |i, s| {
         if ctx.mine(i) {
             c19_string(s, rep);
@@ -1161,7 +1161,7 @@ fn c19(ctx: &Ctx, rep: &mut Report) {
     }
     // defer shapes
     let mut rng = ctx.rng("c19-defer");
-    let n = if ctx.thorough { 100_000 } else { 10_000 } / ctx.shards;
+    let n = if ctx.thorough { 2_000_000 } else { 10_000 } / ctx.shards;
     for _ in 0..n {
         let mut id = 0;
         let s = gen_scope(&mut rng, 1, &mut id);
